@@ -1,9 +1,10 @@
 (* C10 — Object Lock protections cannot be circumvented.
    Only statements; proofs are in Proofs/LockProof.v.  Model/Lock.v transcribes auth.CheckObjectAccess and the retention
    overwrite rule and is compared with the real functions on generated states on every run; that every destructive route
-   reaches these decisions is explored end to end (props/c10.py), not proved. *)
+   reaches these decisions is an obligation over the route table regenerated from s3api/controllers/base.go and backend/posix/posix.go
+   on every run (C10_destructive_routes_checked), and is explored end to end as well (props/c10.py). *)
 From Coq Require Import List Bool.
-From VGW Require Import Model.Lock Proofs.LockProof.
+From VGW Require Import Model.Lock Proofs.LockProof Gen.RouteTable Gen.LockCalls Check.LockRouteCheck.
 Import ListNotations.
 
 (* the lock check lets a request through only if none of the objects it names is protected against this caller: no legal
@@ -35,6 +36,13 @@ Print Assumptions C10_governance_needs_bypass_permission.
 Theorem C10_retention_overwrite_rule : (forall b, put_retention_allowed (Some Compliance) b = false) /\ (forall b, put_retention_allowed (Some Governance) b = b).
 Proof. split; [exact compliance_retention_rule|exact governance_retention_rule]. Qed.
 Print Assumptions C10_retention_overwrite_rule.
+
+(* on the current sources: PutObject, CopyObject, DeleteObject and DeleteObjects are each preceded, on every path of their handler,
+   by a call of auth.CheckObjectAccess; CompleteMultipartUpload makes that call itself before it links the object *)
+Theorem C10_destructive_routes_checked :
+  lock_bad_rows route_table = [] /\ destructive_present route_table = true /\ cmu_checked posix_lock_calls = true.
+Proof. vm_compute. repeat split; reflexivity. Qed.
+Print Assumptions C10_destructive_routes_checked.
 
 (* non-vacuity: a GOVERNANCE version is removed by a bypassing caller and by nobody else; a held version by nobody *)
 Example C10_example :
